@@ -207,6 +207,10 @@ pub fn gen_path() -> String {
     }
     if t::chance(1, 6) {
         p.push('/');
+        // exactly one trailing slash is dropped by the documented normalisation; further ones are part of the path
+        if t::chance(1, 4) {
+            p.push_str(t::pick(&["/", "//"]));
+        }
     }
     p
 }
@@ -354,7 +358,9 @@ pub fn gen_request(o: &GenOpts) -> ReqSpec {
             Some((prev, _)) if o.name_case == NameCase::Plain => prev.clone(),
             _ => spell(name, o.name_case, is_std),
         };
-        headers.push((spelled, gen_value()));
+        // (an address a proxy reports is a header value like any other: the peer of the connection stays what it is)
+        let value = if name == "X-Forwarded-For" && t::chance(2, 3) { t::pick(&["203.0.113.7", "203.0.113.7, 10.0.0.2", "2001:db8::1", "unknown", "198.51.100.23,10.1.1.1"]).as_bytes().to_vec() } else { gen_value() };
+        headers.push((spelled, value));
     }
     if o.connection_header && t::chance(1, 8) {
         headers.push((spell("Connection", o.name_case, true), b"keep-alive".to_vec()));
